@@ -5,7 +5,7 @@ from ..fdai import EnumV, AggV, K, SymV, RefV, Cell, Loc, TOP, load, snapshot
 from . import dispatch as D, contrib as CB, lexer as LX
 
 LEVEL = "other"
-TECHNIQUE = "FDAI tables over byte classes for NumericList::next and ChannelList::next (which first byte, with `first` set or not, starts an entry / consumes a separator / is an error; pure helpers of tokenizer::util analysed in place), range-construction tables of read_numeric_data and read_channel_range (both ends from the same reader in text order; equal dimensions), value tables of the six ChannelSpec conversions folded on concrete specs of 1..4 dimensions (lexical-core's partial parser and the integer TryFroms by contract, workspace TryFrom/From impls and generic helpers in place); whole-list value tables: X::new(text) then next() to the end folded on complete lists vs a reference reading of SCPI-99 8.3.2/8.3.3; typed echo tables (sa/rules/echotable.py, witness/echo): `Node::run` folded end to end on messages to a witness command that pulls one parameter of the type (`next_data::<T>()` / `next_optional_data`) and writes it back - lexer, dispatcher, Parameters, the conversion, the ResponseData writer and the formatter analysed in place, lexical-core's parsers / integer writer by contract - the answer compared with a reference written from the property's statement: a handler iterating a numeric list / a channel list of two-dimensional specs and answering count and an order-sensitive checksum: entries, ranges, order, separators missing / doubled / leading, blanks, wrong dimension counts, numbers the target cannot hold"
+TECHNIQUE = "FDAI tables over byte classes for NumericList::next and ChannelList::next (which first byte, with `first` set or not, starts an entry / consumes a separator / is an error; pure helpers of tokenizer::util analysed in place), range-construction tables of read_numeric_data and read_channel_range (both ends from the same reader in text order; equal dimensions), value tables of the six ChannelSpec conversions folded on concrete specs of 1..4 dimensions (lexical-core's partial parser and the integer TryFroms by contract, workspace TryFrom/From impls and generic helpers in place); whole-list value tables: X::new(text) then next() to the end folded on complete lists vs a reference reading of SCPI-99 8.3.2/8.3.3; typed echo tables (sa/rules/echotable.py, witness/echo): `Node::run` folded end to end on messages to a witness command that pulls one parameter of the type (`next_data::<T>()` / `next_optional_data`) and writes it back - lexer, dispatcher, Parameters, the conversion, the ResponseData writer and the formatter analysed in place, lexical-core's parsers / integer writer by contract - the answer compared with a reference written from the property's statement: a handler iterating a numeric list / a channel list of two-dimensional specs and answering count and an order-sensitive checksum: entries, ranges, order, separators missing / doubled / leading, blanks, wrong dimension counts, numbers the target cannot hold; path names with any ASCII content; census of the parser's Iterator impls with every overridden method other than `next` folded against `next` (R19.13)"
 LEVEL_TEXT = 'The two list iterators are enumerated over every class of the next byte x the `first` flag, yielding exact start-set tables (an entry starts only at the beginning or after exactly one comma; a leading or doubled comma and foreign characters are errors); the range readers are enumerated path by path with the provenance of both ends; the tuple conversions are decided by value: element i is the i-th number of the text, other dimension counts and unrepresentable numbers are refused.'
 LEVEL_NOTE = "Not decided: value-level equality of the numbers (lexical-core / read_nrf, C04/C07); quoted path names reuse the string reader (C04). Trusted: rustc MIR, FDAI byte-cursor models."
 
